@@ -14,7 +14,7 @@ import itertools
 from vt import ir, irgen, irref, seams
 from vt.acc import Acc, MachineryError
 from vt.ir import B, ref, c
-from vt.irgen import Sab, comp
+from vt.irgen import Sab, Npc, comp
 
 PROPERTY = "C08"
 LEVEL = "exploration"
@@ -39,7 +39,7 @@ def hierarchy(top_conns, c1_conns):
                     ("up_c2q", "comb", [("=", ref("q"), ("bin", "+", ref("p"), c(2, 1)))])])
   sigs = [("in_", "in", B(4), ()), ("in2", "in", B(2), ()), ("sin", "in", Sab, ()), ("out", "out", B(4), ()), ("o2", "out", B(2), ()),
           ("sout", "out", Sab, ()), ("w", "wire", B(4), ()), ("v", "wire", B(4), ()), ("sw", "wire", Sab, ()),
-          ("u", "wire", B(8), ()), ("sx", "wire", S8, ()), ("p6", "out", B(6), ())]
+          ("u", "wire", B(8), ()), ("sx", "wire", S8, ()), ("p6", "out", B(6), ()), ("nx", "wire", Npc, ())]
   # block-driven slices of u and a block-driven struct sx: connections to overlapping / containing / contained slices
   # must find their writer through the "bit-overlapping driven relative" rule
   blocks = [("up_u", "comb", [("=", ref("u", ("s", 2, 6)), ref("in_"))]),
@@ -74,6 +74,8 @@ def alphabet():
     (r("p6"), r("u", ("s", 1, 7))), (r("out"), r("u", ("s", 2, 6))), (r("out"), r("u", ("s", 0, 4))), (r("o2"), r("u", ("s", 3, 5))),
     (r("o2"), r("u", ("s", 1, 7), ("s", 2, 4))), (r("o2"), r("sx", ("f", "b"), ("s", 2, 6), ("s", 1, 3))), (r("out"), r("sx", ("f", "b"), ("s", 4, 8))),
     (r("out"), r("sx", ("f", "a"))), (r("v"), r("u", ("s", 4, 8))),
+    # nested struct: an intermediate struct field is the driven member, its own fields are read
+    (r("nx", ("f", "p")), r("sin")), (r("o2"), r("nx", ("f", "p"), ("f", "b"))), (r("nx", ("f", "c")), r("in2")), (r("sout"), r("nx", ("f", "p"))),
     # constants
     (r("i", path=c1), c(4, 5)), (r("w"), c(4, 9)), (r("p", path=c2), c(2, 2)), (r("w", ("s", 0, 2)), c(2, 1)), (r("sw", ("f", "a")), c(2, 3)),
   ]
